@@ -69,6 +69,25 @@ class ProjectContext(typ.NamedTuple):
     vcs_type       : typ.Optional[str]
 
 
+SECTION_HEADER_RE = re.compile(r"^\[\[?([^\[\]]+)\]\]?\s*(?:[#;].*)?$")
+
+
+def _find_current_version_line(raw_cfg_text: str) -> typ.Optional[str]:
+    """Find the line of the current_version key in the bumpver (or pycalver) section."""
+    is_config_section = False
+    for line in raw_cfg_text.splitlines():
+        if is_config_section and re.match(r"\s*current_version\s*[=:]", line):
+            return line
+
+        # NOTE: a section header may be indented and may be followed by a comment
+        section_match = SECTION_HEADER_RE.match(line.strip())
+        if section_match:
+            section_name      = section_match.group(1).strip()
+            is_config_section = section_name in ("pycalver", "bumpver", "tool.bumpver")
+
+    return None
+
+
 def _pick_config_filepath(path: pl.Path) -> pl.Path:
     config_candidates: typ.List[pl.Path] = [
         path / "pycalver.toml",
@@ -85,8 +104,10 @@ def _pick_config_filepath(path: pl.Path) -> pl.Path:
             with config_filepath.open(mode="rb") as fobj:
                 data = fobj.read()
 
-            has_bumpver_section = (b"bumpver]" in data or b"pycalver]" in data) and b"current_version" in data
-            if has_bumpver_section:
+            # NOTE: not only a mention of the words (a comment, "[tool.hatch.envs.bumpver]",
+            #   the current_version of another tool)
+            raw_cfg_text = data.decode("utf-8", errors="replace")
+            if _find_current_version_line(raw_cfg_text) is not None:
                 return config_filepath
 
     # Next pick whatever config happens to exist, even if it
@@ -510,36 +531,26 @@ def _parse_config(raw_cfg: RawConfig) -> Config:
     return cfg
 
 
-SECTION_HEADER_RE = re.compile(r"^\[\[?([^\[\]]+)\]\]?\s*(?:[#;].*)?$")
-
-
 def _parse_current_version_default_pattern(raw_cfg: RawConfig, raw_cfg_text: str) -> str:
-    is_config_section = False
-    for line in raw_cfg_text.splitlines():
-        if is_config_section and re.match(r"\s*current_version\s*[=:]", line):
-            # NOTE: values from .cfg files may still carry their quotes here.
-            #   Only the bare version is replaced, the quoting of the line is kept.
-            current_version: str = raw_cfg['current_version'].strip("'\" ")
-            version_pattern: str = raw_cfg['version_pattern'].strip("'\" ")
-            version_idx = line.find(current_version)
-            if version_idx < 0:
-                return line
+    line = _find_current_version_line(raw_cfg_text)
+    if line is None:
+        raise ValueError("Could not parse 'current_version'")
 
-            # NOTE: the pattern ends with the value. A trailing comment is not part
-            #   of it (it may mention the version or contain brackets).
-            version_end = version_idx + len(current_version)
-            closing_quote = line[version_end : version_end + 1]
-            if closing_quote not in ("'", '"'):
-                closing_quote = ""
-            return line[:version_idx] + version_pattern + closing_quote
+    # NOTE: values from .cfg files may still carry their quotes here.
+    #   Only the bare version is replaced, the quoting of the line is kept.
+    current_version: str = raw_cfg['current_version'].strip("'\" ")
+    version_pattern: str = raw_cfg['version_pattern'].strip("'\" ")
+    version_idx = line.find(current_version)
+    if version_idx < 0:
+        return line
 
-        # NOTE: a section header may be followed by a comment
-        section_match = SECTION_HEADER_RE.match(line.strip())
-        if section_match:
-            section_name      = section_match.group(1).strip()
-            is_config_section = section_name in ("pycalver", "bumpver", "tool.bumpver")
-
-    raise ValueError("Could not parse 'current_version'")
+    # NOTE: the pattern ends with the value. A trailing comment is not part
+    #   of it (it may mention the version or contain brackets).
+    version_end = version_idx + len(current_version)
+    closing_quote = line[version_end : version_end + 1]
+    if closing_quote not in ("'", '"'):
+        closing_quote = ""
+    return line[:version_idx] + version_pattern + closing_quote
 
 
 def _set_raw_config_defaults(raw_cfg: RawConfig) -> None:
